@@ -29,6 +29,8 @@ bitflags::bitflags! {
 
 pub struct MqttShared {
     io: IoRef,
+    /// sink is closed, `io.is_closed()` lags behind `io.close()` until io tasks process shutdown
+    closed: Cell<bool>,
     cap: Cell<usize>,
     receive_max: Cell<u16>,
     topic_alias_max: Cell<u16>,
@@ -81,6 +83,7 @@ impl MqttShared {
     pub(super) fn new(io: IoRef, codec: codec::Codec, pool: Rc<MqttSinkPool>) -> Self {
         Self {
             io,
+            closed: Cell::new(false),
             pool,
             codec,
             cap: Cell::new(0),
@@ -175,11 +178,13 @@ impl MqttShared {
             }
             self.io.close();
         }
+        self.closed.set(true);
         self.clear_queues();
     }
 
     pub(super) fn force_close(&self) {
         self.io.terminate();
+        self.closed.set(true);
         self.clear_queues();
     }
 
@@ -189,6 +194,11 @@ impl MqttShared {
     }
 
     pub(super) fn is_closed(&self) -> bool {
+        self.closed.get() || self.io.is_closed()
+    }
+
+    /// Io stream is closed (inbound side, does not depend on the state of the sink)
+    pub(super) fn is_io_closed(&self) -> bool {
         self.io.is_closed()
     }
 
@@ -271,6 +281,7 @@ impl MqttShared {
         self.clear_queues();
         if io {
             self.io.close();
+            self.closed.set(true);
         }
     }
 
